@@ -61,6 +61,7 @@ Inductive obj :=
 | OPseq (items : list obj) (repeats : nat)  (* Pseq(items, repeats) around arbitrary items: each item is EMBEDDED *)
 | OPn (p : obj) (repeats : nat)           (* Pn(p, repeats) *)
 | OPatStr (p : obj)                       (* PatternValueStream(p): next() drives embed(p) *)
+| OPfunc (id : nat)                       (* Pfunc(lambda inval: ...): every next(inval) yields a function of THAT input *)
 | OSeq (k : kind) (items : list obj)      (* list / tuple / ChannelList *)
 | OOperand (rest : bool) (a : obj)        (* Operand(value) / Rest(value) *)
 | OErr (e : err).                         (* an exception was raised *)
@@ -72,7 +73,7 @@ Definition class_of (o : obj) : cls :=
   | ONum _ => CNum
   | OFn _ | OUnFn _ _ | OBinFn _ _ _ | ONarFn _ _ _ => CFn
   | OStr _ | OValStr _ | OUnStr _ _ | OBinStr _ _ _ | ONarStr _ _ _ | OPatStr _ => CStr
-  | OPat _ | OUnPat _ _ | OBinPat _ _ _ | ONarPat _ _ _ | OPseq _ _ | OPn _ _ => CPat
+  | OPat _ | OUnPat _ _ | OBinPat _ _ _ | ONarPat _ _ _ | OPseq _ _ | OPn _ _ | OPfunc _ => CPat
   | OSeq k _ => CSeq k
   | OOperand r _ => COperand r
   | OErr _ => CErr
@@ -99,7 +100,7 @@ Definition operand_value (o : obj) : obj := match o with OOperand _ y => y | _ =
 Fixpoint to_stream (o : obj) : obj :=
   match o with
   | OStr _ | OValStr _ | OUnStr _ _ | OBinStr _ _ _ | ONarStr _ _ _ | OPatStr _ => o
-  | OPseq _ _ | OPn _ _ => OPatStr o        (* Pattern.__stream__: PatternValueStream(self) *)
+  | OPseq _ _ | OPn _ _ | OPfunc _ => OPatStr o   (* Pattern.__stream__: PatternValueStream(self) / FunctionStream *)
   | OPat items => OStr items
   | OUnPat g a => OUnStr g (to_stream a)
   | OBinPat g a b => OBinStr g (to_stream a) (to_stream b)
@@ -381,10 +382,111 @@ Fixpoint xpull (m : pmode) (o : obj) : strm obj :=
       | MPull => SConst o
       | _ => srepeat r (xpull MEmbed p)
       end
+  | OPfunc _ => match m with MPull => SConst o | _ => SConst (ONum NErr) end   (* input-dependent, never ends: see ipull *)
   (* anything else: a value; stream(o) = ValueStream(o), embed(o) yields o once *)
   | _ => match m with MEmbed => SFin [o] | _ => SConst o end
   end.
 Definition pull (o : obj) : strm obj := xpull MPull o.
+
+(* ---------------------------------------------------------------------- *)
+(* ChannelList.clip / fold / wrap / blend (METHOD form, ugen.py:53): not list_narop but
+     l = [ugen_param(i) for i in self]
+     l = [getattr(row[0], selector)(row[1], row[2], ..) for row in utl.flop([l, args..])]
+   i.e. the channels AND every argument are columns of a flop: the result has as many channels as the
+   LONGEST of them, each taken with wrap-around; a number channel is a UGenScalar whose method is
+   bi.clip(value, lo, hi) etc.  (as_list: a tuple or a scalar argument is a one-item column.)
+   Channels that are not numbers (UGens, nested lists) are outside this model. *)
+Definition as_col (o : obj) : list obj :=
+  match o with
+  | OSeq KTuple _ => [o]
+  | OSeq _ items => items
+  | _ => [o]
+  end.
+Definition chan_method_narop (g : op3) (a : obj) (args : list obj) : obj :=
+  match first_err args with
+  | Some e => OErr e
+  | None =>
+    match a with
+    | OSeq KChan items =>
+        OSeq KChan (map (fun row => match row with
+                                    | ONum x :: rest => apply_narop g (ONum x) rest
+                                    | _ => OErr EType
+                                    end)
+                        (flop_rows (OSeq KList []) (OErr EIndex) (items :: map as_col args)))
+    | _ => OErr EType
+    end
+  end.
+
+(* ---------------------------------------------------------------------- *)
+(* next(inval): the value passed to next() is handed to every operand stream of a composite
+   (`a = self.a.next(inval); b = self.b.next(inval)`) and threaded through embedding generators
+   (`inval = yield ...`; `inval = yield from embed(item, inval)`), so the k-th value drawn from an enclosing
+   pattern is computed from the k-th input, wherever the operand sits.  `ipull` is `xpull` with the
+   index of the next() call made explicit: `off` is the number of values the enclosing stream has yielded
+   before this object starts, `ienv id idx` the value of the input-dependent primitive id (a Pfunc) for the
+   idx-th input, `hor` the number of next() calls that are observed (Pfunc streams never end).  *)
+Section InPull.
+  Variable ienv : nat -> nat -> num.
+  Variable hor : nat.
+  Definition sapp_at (f : nat -> strm obj) (g : nat -> strm obj) (off : nat) : strm obj :=
+    match f off with
+    | SFin x => match g (off + length x) with SFin y => SFin (x ++ y) | SConst a => SConst a end
+    | SConst a => SConst a
+    end.
+  Fixpoint ipull (m : pmode) (off : nat) (o : obj) : strm obj :=
+    match o with
+    | OPfunc id => match m with
+                   | MPull => SConst o
+                   | _ => SFin (map (fun k => ONum (ienv id (off + k))) (seq 0 (hor - off)))
+                   end
+    | OStr items => SFin (map ONum items)
+    | OValStr a => match m with MEmbed => SFin [a] | _ => SConst a end
+    | OUnStr g a => smap (sel_apply1 g) (ipull MPull off a)
+    | OBinStr g a b => szip (sel_apply2 g) (ipull MPull off a) (ipull MPull off b)
+    | ONarStr g a args => szip (sel_apply3 g) (ipull MPull off a) (sseq (map (ipull MPull off) args))
+    | OPatStr p => ipull MEmbed off p
+    | OPat items => match m with MPull => SConst o | _ => SFin (map ONum items) end
+    | OUnPat g a => match m with MPull => SConst o | _ => smap (sel_apply1 g) (ipull MStream off a) end
+    | OBinPat g a b =>
+        match m with MPull => SConst o | _ => szip (sel_apply2 g) (ipull MStream off a) (ipull MStream off b) end
+    | ONarPat g a args =>
+        match m with
+        | MPull => SConst o
+        | _ => szip (sel_apply3 g) (ipull MStream off a) (sseq (map (ipull MStream off) args))
+        end
+    | OPseq items r =>
+        match m with
+        | MPull => SConst o
+        | _ =>
+          (fix rep (r : nat) : nat -> strm obj :=
+             match r with
+             | O => fun _ => SFin []
+             | S r' => sapp_at ((fix go (its : list obj) : nat -> strm obj :=
+                                   match its with
+                                   | [] => fun _ => SFin []
+                                   | it :: rest => sapp_at (fun off' => ipull MEmbed off' it) (go rest)
+                                   end) items)
+                               (rep r')
+             end) r off
+        end
+    | OPn p r =>
+        match m with
+        | MPull => SConst o
+        | _ => (fix rep (r : nat) : nat -> strm obj :=
+                  match r with
+                  | O => fun _ => SFin []
+                  | S r' => sapp_at (fun off' => ipull MEmbed off' p) (rep r')
+                  end) r off
+        end
+    | _ => match m with MEmbed => SFin [o] | _ => SConst o end
+    end.
+  (* what an observer calling next(ins[0]), next(ins[1]), ... sees *)
+  Definition observe (o : obj) : strm obj :=
+    match ipull (match class_of o with CStr => MPull | _ => MStream end) 0 o with
+    | SFin l => SFin (firstn hor l)
+    | SConst a => SConst a
+    end.
+End InPull.
 
 (* ---------------------------------------------------------------------- *)
 (* deep evaluation, as an observer would do it: call what is callable (at the fixed
@@ -473,7 +575,8 @@ Inductive expr :=
 | EBin (g : op2) (a b : expr)
 | ENar (g : op3) (a : expr) (args : list expr)
 | EPseq (items : list expr) (repeats : nat)     (* Pseq([...], repeats) around built expressions *)
-| EPn (a : expr) (repeats : nat).
+| EPn (a : expr) (repeats : nat)
+| ECNar (g : op3) (a : expr) (args : list expr).   (* ChannelList.clip/fold/wrap/blend METHOD form *)
 
 (* Python builds eagerly: an exception raised while an element of a sequence / the value of an
    Operand is computed aborts the whole sub-expression at once (it cannot sit inside a list that a
@@ -496,4 +599,5 @@ Fixpoint build (e : expr) : obj :=
   | ENar g a args => eager (apply_narop g (build a) (map build args))
   | EPseq items r => OPseq (map build items) r
   | EPn a r => OPn (build a) r
+  | ECNar g a args => eager (chan_method_narop g (build a) (map build args))
   end.
